@@ -22,8 +22,12 @@ ASSUMPTIONS = ["the same set of trash directories for all commands (restore sees
 FMT = '%Y-%m-%dT%H:%M:%S'
 
 
+RULE += ' Since round 8: an empty Path= value.'
+
+
 def contents(rng, rel, k):
-    p = rng.choice(['d/f%d' % k, 'a b/%d' % k, 'pc%%41/%d' % k, 'x%%E9y/%d' % k, 'n%%0Al/%d' % k, 'plain%d' % k, 'tr %d ' % k, 'd/../up%d' % k, './dot%d' % k, 'd//dbl%d' % k, 'd/trail%d/' % k])
+    p = rng.choice(['d/f%d' % k, 'a b/%d' % k, 'pc%%41/%d' % k, 'x%%E9y/%d' % k, 'n%%0Al/%d' % k, 'plain%d' % k, 'tr %d ' % k, 'd/../up%d' % k, './dot%d' % k, 'd//dbl%d' % k, 'd/trail%d/' % k] +
+                   ([''] if k == 0 else []))       # an empty value: the entry is the $topdir itself, for every command
     path = p if rel else '/home/u/' + p
     date = rng.choice(['2024-01-01T00:00:00', '2023-06-15T08:09:10', '2000-02-29T12:00:00'])
     v = rng.choice(['plain', 'dup_path', 'dup_date', 'extra', 'nohdr', 'crlf', 'trail', 'bad_first_date', 'tz', 'lower', 'no_date', 'spaces_key'])
